@@ -23,14 +23,22 @@ CLAIMED = {
    text="As C02 for is_skeptically_accepted; the three oracle-dependent exits of the PR counter-example search are reached on the same graph by varying the oracle policy.", note="as C01", ref="DESIGN.md 5/C03"),
  "C04": dict(level="exploration", technique=TECH + "frameworks x configurations x SAT-oracle behaviours, RefSem oracle)",
    text="The *_with_certificate entry points on every argument, half of the frameworks with several components and/or sparse ids: certificate present exactly when promised, is an extension of the right semantics (CO for DC-PR), contains / omits the argument, members carry the framework's own label and id, no duplicates.", note="as C01", ref="DESIGN.md 5/C04"),
+ "C06": dict(level="exploration", technique=TECH + "query histories on one solver object replayed under alternative configurations: encoder x SAT backend (SimSat seeds, real CaDiCaL, real DIMACS writer/parser over a simulated solver program) x certificate flag x query order; differential + RefSem oracle)",
+   text="One history of 6-24 queries applied to one solver object per configuration and re-applied under 2-4 alternative configurations (other encoder, other backend incl. the real BufferedSatSolver over a simulated solver with seeded legal reply layouts, flipped certificate flags, reversed/shuffled order, fresh objects): statuses must agree position by position and with RefSem; the framework snapshot must be unchanged.", note="The external backend is in-process here (real DIMACS writer/parser, simulated solver program); the process path is C16.", ref="DESIGN.md 5/C06"),
  "C07": dict(level="exploration", technique=TECH + "argument lists x frameworks x SAT-oracle behaviours, RefSem oracle)",
    text="Lists of 1-3 arguments (repetitions, same/different components) through are_*_accepted[_with_certificate] of all static solvers; status = disjunction per RefSem, with/without certificate agree, certificate valid for the disjunction.", note="as C01", ref="DESIGN.md 5/C07"),
  "C08": dict(level="exploration", technique=TECH + "update/query histories x SAT-oracle behaviours on the six dynamic solvers, lock-step RefStore + RefSem oracle)",
    text="Generated operation histories (valid updates incl. re-adding removed labels, queries with/without certificate, swarm weights hitting the answer cache, slot exhaustion/re-encoding, shrink-and-regrow) against all six dynamic solver kinds and every reservation factor, under a simulated SAT backend whose arbitrary models decide what the caches hold; every answer and certificate is checked against brute-force semantics of the lock-step set model.", note="Trusted: RefStore/RefSem; certificate members judged by label. <= 7 live arguments, histories <= 63 steps.", ref="DESIGN.md 5/C08"),
  "C09": dict(level="exploration", technique=TECH + "histories with an injected stream of redundant/invalid updates, lock-step RefStore + RefSem oracle, liveness after faults stop)",
    text="C08 histories plus a fault stream of redundant and invalid updates placed preferentially right after un-flushed updates: the update call itself must return Err (invalid) / Ok (redundant), the model is unchanged, all later answers match the unchanged model, no panic, and >= 3 fault-free queries at the end must be served (usable once faults stop).", note="as C08", ref="DESIGN.md 5/C09"),
+ "C10": dict(level="exploration", technique=TECH + "encoder-object reuse histories x frameworks, CNF recorded at the SatSolver seam; per case an exhaustive 2^n refinement check against RefSem)",
+   text="Weak fit, stated in DESIGN.md: the CNF is a function of (framework, encoder). The simulator contributes the recording backend at the seam the property names and the encoder-object history (one encoder object encodes 0-2 other frameworks first, as solvers do per component/query - this matters for the hybrid encoder's RefCell tables). Per case the check is exhaustive over all 2^n argument subsets in both directions, plus range reachability/exclusion, arg_to_lit injectivity and assignment_to_extension round trip; cases are sampled (all encoders incl. the two public factory functions, both sides of the hybrid threshold).", note="Frameworks <= 8 arguments with compact ids.", ref="DESIGN.md 5/C10"),
  "C12": dict(level="exploration", technique=TECH + "operation histories incl. invalid/redundant operations, set-model refinement after every step)",
    text="Seeded update histories (3-80 operations over 1-8 labels, usize and String, invalid and redundant operations included) on AAFramework, compared after EVERY operation with a trivial set model on all public observables (counts, id order, lookups, three attack iterators, grounded extension, id stability, Err for invalid operations).", note="Trusted: RefStore set model. Sampling of histories; universes of at most 8 labels.", ref="DESIGN.md 5/C12"),
+ "C15": dict(level="exploration", technique=TECH + "operation histories on SAT solver objects in lock-step (real CaDiCaL, real DIMACS writer/parser over a simulated solver program with seeded reply layouts), truth-table reference)",
+   text="Histories of add_clause/reserve/solve/solve_under_assumptions (empty, unit, tautological clauses, unused reserved variables, assumptions on unseen variables, unconstrained solve right after an assumption solve) applied in lock-step to CadicalSolver and to BufferedSatSolver over SimChild; every verdict and model is checked against a truth table (<= 12 variables), value_of must be answerable for every declared variable.", note="ExternalSatSolver = BufferedSatSolver + exec_solver; exec_solver itself is covered by C16.", ref="DESIGN.md 5/C15"),
+ "C16": dict(level="exploration", technique=TECH + "argumentation workloads over the real DIMACS writer with a strict validator inside the simulated solver program; schedules of feeder thread / child / reader on a simulated process-and-pipe seam; real-OS cross-check)",
+   text="Part 1: every DIMACS instance that the static and dynamic argumentation workloads hand to the external program is validated strictly (header variable and clause counts, termination, nothing else). Parts 2-3 (schedule exploration of exec_solver on the simulated pipe seam, real OS pipes) are reported under coverage.extra when built.", note="Strict DIMACS CNF reader as judge.", ref="DESIGN.md 5/C16"),
  "C17": dict(level="fault_enumeration", technique="deterministic simulation with fault injection (enumeration of SAT-call position x fault kind per sampled query, at the SatSolver trait and through the real DIMACS reply parser)",
    text="For each sampled query: fault-free dry run, then the query is re-run once per (SAT-call position, fault kind) with the backend failing there (Unknown at trait level; 8 reply-fault kinds through the real BufferedSatSolver parser); the query must unwind, never return a status/extension. Complete over positions x kinds per case (<= 24 positions), sampled over cases.", note="Trusted: 'unwind = abort' reading of the library contract; prefix identity with the dry run is checked by digest.", ref="DESIGN.md 5/C17"),
  "C18": dict(level="exploration", technique=TECH + "adversarial SAT-oracle policies, post-hoc check of the recorded SAT-call history against RefSem cardinalities, hard step budget)",
